@@ -22,19 +22,23 @@ func TestCheck(t *testing.T) {
 	for i := 0; i < crashkit.GenCount(genLen); i++ {
 		scens = append(scens, crashkit.Scenario{Name: fmt.Sprintf("gen%d-%d", genLen, i), Script: fmt.Sprintf("gen:%d:%d", genLen, i)})
 	}
-	crashkit.Enumerate(r, scens)
+	if os.Getenv("VERIF_C01_ONLYCONC") == "" { // development knob
+		crashkit.Enumerate(r, scens)
+	}
 	// concurrent clients: every schedule x every crash point of that schedule
 	if os.Getenv("VERIF_C01_NOCONC") == "" {
-		cb := time.Now().Add(runner.Pick(r, 60*time.Second, 10*time.Minute))
-		crashkit.EnumerateConc(r, "conc-producers", runner.Pick(r, 1, -1), time.Until(cb)/2)
-		crashkit.EnumerateConc(r, "conc-consumer", runner.Pick(r, 1, -1), time.Until(cb))
+		// preemption-bounded: an unbounded (sleep-set reduced) enumeration at handler level was tried and is dominated by
+		// orders of metric/atomic operations (4 365 schedules for two clients, 150 k distinct pairs)
+		cb := time.Now().Add(runner.Pick(r, 60*time.Second, 8*time.Minute))
+		crashkit.EnumerateConc(r, "conc-producers", runner.Pick(r, 1, 2), time.Until(cb)/2)
+		crashkit.EnumerateConc(r, "conc-consumer", runner.Pick(r, 1, 2), time.Until(cb))
 		if r.Thorough() {
-			crashkit.EnumerateConc(r, "conc-three", -1, 8*time.Minute)
+			crashkit.EnumerateConc(r, "conc-three", 1, 4*time.Minute)
 		}
 	}
 	r.Assume("process death only (page cache survives): crash points are 'before each file-mutating syscall SQLite issues' (write/pwrite64/fsync/ftruncate/unlink/rename/openat|O_CREAT ...); power loss (dropping un-fsynced writes) is not modelled")
 	r.Assume("acknowledgement = first WriteHeader/Write on the ResponseWriter (earliest possible instant)")
 	r.Assume("concurrent part: 2-3 clients under the controlled scheduler (scheduling points = lock/atomic/connection operations; data-race freedom is the side condition checked by the -race passes of C03/C18); a (schedule, crash point) pair whose execution prefix equals one already run is not repeated")
-	r.Set("rule", "for each scripted history (ingress on a pull route and on a 2-target fan-out route, Admin publish incl. a refused duplicate batch, pull dequeue/ack/nack/dead-letter/batch ack, explicit WAL checkpoints; crash points inside the first open + migrate of the database included; thorough: also a lease-centred history; plus EVERY history of length 2 (thorough: 4, within the time budget) over {ingress pull, ingress fan-out, publish 2 items, dequeue 2, ack, nack, dead-letter the oldest unused lease}) the child process is SIGKILLed before its n-th file-mutating SQLite syscall for every n; the parent restarts through the production boot path and requires: database opens, integrity_check ok, counters consistent, contents equal one of the admissible outcomes (acknowledged operations exactly, the one unacknowledged operation applied / not applied / fan-out prefix), every unsettled message offered again exactly once after lease expiry with identical payload and headers; concurrent part: for the scripts conc-producers (pull ingress + fan-out ingress against publish + ingress), conc-consumer (two ingress against dequeue/ack/dequeue/nack) and, thorough, conc-three (fan-out producer, publisher, consumer with dead-letter) every schedule (quick: <= 1 preemption; thorough: unbounded, sleep-set reduced) x every crash point of that schedule, with one in-flight operation per client admitted; non-trivial = distinct (scenario, last started operation, inside/between) classes and distinct sets of in-flight operations")
+	r.Set("rule", "for each scripted history (ingress on a pull route and on a 2-target fan-out route, Admin publish incl. a refused duplicate batch, pull dequeue/ack/nack/dead-letter/batch ack, explicit WAL checkpoints; crash points inside the first open + migrate of the database included; thorough: also a lease-centred history; plus EVERY history of length 2 (thorough: 4, within the time budget) over {ingress pull, ingress fan-out, publish 2 items, dequeue 2, ack, nack, dead-letter the oldest unused lease}) the child process is SIGKILLed before its n-th file-mutating SQLite syscall for every n; the parent restarts through the production boot path and requires: database opens, integrity_check ok, counters consistent, contents equal one of the admissible outcomes (acknowledged operations exactly, the one unacknowledged operation applied / not applied / fan-out prefix), every unsettled message offered again exactly once after lease expiry with identical payload and headers; concurrent part: for the scripts conc-producers (pull ingress + fan-out ingress against publish + ingress), conc-consumer (two ingress against dequeue/ack/dequeue/nack) and, thorough, conc-three (fan-out producer, publisher, consumer with dead-letter) every schedule (quick: <= 1 preemption; thorough: <= 2, three clients <= 1) x every crash point of that schedule, with one in-flight operation per client admitted; non-trivial = distinct (scenario, last started operation, inside/between) classes and distinct sets of in-flight operations")
 	r.Finish()
 }
